@@ -44,6 +44,22 @@ type gGroup struct {
 
 func (g *gGroup) group() *pb.StringUint64Map { return &pb.StringUint64Map{Keys: g.keys, Vals: g.vals} }
 
+// groupRot: the same declaration with its members listed from another starting point (a pier that fills the
+// descriptor from a map lists them in any order; the group is the same)
+func (g *gGroup) groupRot(k int) *pb.StringUint64Map {
+	n := len(g.keys)
+	if n < 2 {
+		return g.group()
+	}
+	k = ((k % n) + n) % n
+	out := &pb.StringUint64Map{}
+	for i := 0; i < n; i++ {
+		out.Keys = append(out.Keys, g.keys[(i+k)%n])
+		out.Vals = append(out.Vals, g.vals[(i+k)%n])
+	}
+	return out
+}
+
 type groupModel struct {
 	s       *scn
 	groups  map[int]*gGroup    // slot -> most recently declared group (for step resolution)
@@ -155,7 +171,7 @@ func (s *scn) applyGroup(st CStep) {
 			return
 		}
 		c := g.children[st.N%len(g.children)]
-		ib := &pb.IBTP{From: g.src.full(bxh), To: c.to, Index: c.index, Type: pb.IBTP_INTERCHAIN, TimeoutHeight: g.t, Group: g.group()}
+		ib := &pb.IBTP{From: g.src.full(bxh), To: c.to, Index: c.index, Type: pb.IBTP_INTERCHAIN, TimeoutHeight: g.t, Group: g.groupRot(st.N / 4)}
 		if st.Idx == "dup" {
 			ib.Index = c.index // a duplicate child report
 		}
